@@ -31,7 +31,10 @@ def run(facts, serde_facts, tier):
         if m and any("derive" in x or x in ("Clone", "PartialEq", "Debug", "Eq") for x in m):
             continue
         gens = fn.get("generics", [])
-        ok = "K" in gens or "Self" in gens
+        # generic in the array kind: the item has a type parameter and is not specialised to the Vec backend (the
+        # parameter's NAME is not part of the rule: `K` may be called anything)
+        tparams = [g for g in gens if not g.startswith("'")]
+        ok = bool(tparams) and "VecKind" not in p
         if not ok and p in EXCEPTIONS:
             inst.append({"name": p, "sp": fn["sp"], "props": ["C20"], "verdict": "exception: " + EXCEPTIONS[p]})
             continue
